@@ -3,7 +3,7 @@
 import re, sys, time, z3
 
 class Thrown(Exception):
-    def __init__(s,ty,obj=None): s.ty=ty; s.obj=obj
+    def __init__(s,ty,obj=None): s.ty=ty; s.obj=obj; Exception.__init__(s,'C++ exception '+str(ty))
 class BackEdge(Exception):
     def __init__(s,env): s.env=env
 class OOB(Exception):
@@ -143,7 +143,7 @@ class Func:
     def __init__(s): s.blocks={}; s.order=[]; s.params=[]
 class Module:
     def __init__(s,path):
-        s.types={}; s.funcs={}; s.globals={}; s.tp=TypeParser(s)
+        s.types={}; s.funcs={}; s.globals={}; s.aliases={}; s.tp=TypeParser(s)
         lines=open(path).read().split('\n'); i=0
         while i<len(lines):
             l=lines[i]
@@ -151,7 +151,10 @@ class Module:
             if m:
                 s.types[m.group(1).strip('"')]=s.tp.parse(m.group(2))[0]
             elif l.startswith('@'):
-                m=re.match(r'@("[^"]*"|[\w.$-]+) = (.*)$',l); s.globals[m.group(1).strip('"')]=m.group(2)
+                m=re.match(r'@("[^"]*"|[\w.$-]+) = (.*)$',l)
+                ma=re.search(r'\balias\b.*@("[^"]*"|[\w.$-]+)\s*$',m.group(2))
+                if ma: s.aliases[m.group(1).strip('"')]=ma.group(1).strip('"')
+                else: s.globals[m.group(1).strip('"')]=m.group(2)
             elif l.startswith('define'):
                 m=re.search(r'@("[^"]*"|[\w.$-]+)\((.*)\)[^()]*\{\s*$',l); f=Func(); f.name=m.group(1).strip('"'); f.sig=l
                 # params: positional %0.. ; count them by splitting top-level commas
@@ -211,9 +214,13 @@ class Mem:
         for k in range(n):
             o['bytes'][off+k]=((v>>(8*k))&0xff) if is_c(v) else z3.Extract(8*k+7,8*k,v)
     def _clear(s,o,off,n):
-        for st in list(o['ch'].keys()):
-            if st==off and o['ch'][st][1]==n: o['ch'].pop(st); continue
-            if st<off+n and st+o['ch'][st][1]>off: s._explode(o,st)
+        ch=o['ch']; mx=o.get('maxch',0)
+        if not ch or not mx: return
+        if len(ch)<=mx+n: keys=list(ch.keys())
+        else: keys=[k for k in range(off-mx+1,off+n) if k in ch]
+        for st in keys:
+            if st==off and ch[st][1]==n: ch.pop(st); continue
+            if st<off+n and st+ch[st][1]>off: s._explode(o,st)
     def mkarr(s,name,size):
         s.n+=1; s.objs[name]={'size':size,'bytes':{},'ch':{},'arr':z3.Array(name+'_mem',z3.BitVecSort(64),z3.BitVecSort(8))}; return Ptr(name,0)
     def store(s,p,val,nbytes):
@@ -233,8 +240,10 @@ class Mem:
         o=s.objs[p.obj]
         if not (0<=p.off and p.off+nbytes<=o['size']): raise OOB('store',p.obj,p.off,nbytes,o['size'])
         s._clear(o,p.off,nbytes)
-        for k in range(nbytes): o['bytes'].pop(p.off+k,None)
+        if o['bytes']:
+            for k in range(nbytes): o['bytes'].pop(p.off+k,None)
         o['ch'][p.off]=(val,nbytes)
+        if nbytes>o.get('maxch',0): o['maxch']=nbytes
     def load(s,p,nbytes):
         if p.obj not in s.objs: raise OOB('load through null/unknown pointer',p.obj,p.off,nbytes,0)
         o=s.objs[p.obj]
@@ -306,6 +315,12 @@ class Interp:
             if txt=='zeroinitializer':
                 for k in range(t.size()): s.mem.objs[p.obj]['bytes'][p.off+k]=0
             return
+        if isinstance(t,PtrT):
+            s.mem.store(p,s.operand({},t,txt),8); return
+        if isinstance(t,FpT):
+            s.mem.store(p,s.operand({},t,txt),t.size()); return
+        if isinstance(t,VecT):
+            v=s.operand({},t,txt); s.storet(p,t,v); return
         if isinstance(t,IntT):
             if txt.startswith('ptrtoint'):
                 m=re.search(r'@("[^"]*"|[\w.$-]+) to i64\)$',txt); s.mem.store(p,Ptr('@fn:'+m.group(1).strip('"'),0),8); return
@@ -330,6 +345,8 @@ class Interp:
         if txt.startswith('%'): return env[txt]
         if txt.startswith('@'):
             nm=txt[1:].strip('"')
+            ext=getattr(s,'extern',None)
+            if ext and nm in ext: return ext[nm]
             if nm in s.mod.funcs or nm not in s.mod.globals and not nm.startswith('_ZTI'): return Ptr('@fn:'+nm,0)
             return s.glob(nm)
         if txt in ('undef','poison'):
@@ -351,11 +368,22 @@ class Interp:
             m=re.match(r'getelementptr (inbounds )?\((.*)\)$',txt); args=split_top(m.group(2))
             bt,_=s.tp.parse(args[0]); pt,pv=s.typed(env,args[1]); idx=[s.typed(env,a)[1] for a in args[2:]]
             return s.gep(bt,pv,idx)
-        if txt.startswith('bitcast'):
-            m=re.match(r'bitcast \((.*) to .*\)$',txt); return s.typed(env,m.group(1))[1]
+        if txt.startswith('bitcast') or txt.startswith('inttoptr') or txt.startswith('ptrtoint') or txt.startswith('addrspacecast'):
+            m=re.match(r'\w+ \((.*) to .*\)$',txt); return s.typed(env,m.group(1))[1]
+        m=re.match(r'(add|sub|mul|and|or|xor|shl|lshr) (?:nsw |nuw )*\((.*)\)$',txt)
+        if m:
+            a,b=[s.typed(env,x)[1] for x in split_top(m.group(2))]
+            if isinstance(a,Ptr) and isinstance(b,Ptr) and m.group(1)=='sub':
+                assert a.obj==b.obj,(a,b); return binop('sub',a.off,b.off,64)
+            return binop(m.group(1),a,b,t.w)
+        m=re.match(r'(trunc|zext|sext) \((.*) to (.*)\)$',txt)
+        if m:
+            t1,v=s.typed(env,m.group(2)); return cast(m.group(1),v,resolve(t1),t)
         raise Exception('operand? %s'%txt[:80])
     def typed(s,env,txt):
-        txt=txt.strip(); t,i=s.tp.parse(txt); rest=txt[i:].strip()
+        txt=txt.strip()
+        if txt.startswith('inrange '): txt=txt[8:]
+        t,i=s.tp.parse(txt); rest=txt[i:].strip()
         rest=re.sub(r'^((noundef|nonnull|nocapture|readonly|writeonly|signext|zeroext|returned|noalias|immarg|align \d+|dereferenceable\(\d+\))\s+)+','',rest)
         return t,s.operand(env,t,rest)
     def gep(s,bt,p,idx):
@@ -372,6 +400,9 @@ class Interp:
         return Ptr(p.obj,off)
     def call(s,fname,args):
         if fname in s.hooks: return s.hooks[fname](s,args)
+        if fname in s.mod.aliases:
+            fname=s.mod.aliases[fname]
+            if fname in s.hooks: return s.hooks[fname](s,args)
         if fname not in s.mod.funcs: raise Unbound('call to external function without a stub: '+fname)
         f=s.mod.funcs[fname]; env={}
         k=0
@@ -402,7 +433,14 @@ class Interp:
             for l in blk:
                 if ' = phi ' in l: continue
                 s.steps+=1
-                r=s.exec(env,l)
+                try: r=s.exec(env,l)
+                except (BackEdge,Thrown): raise
+                except Exception as e:
+                    if not getattr(e,'irctx',None):
+                        e.irctx=(fname,l[:160])
+                        try: e.args=(str(e.args[0])+'  [at %s: %s]'%(fname,l[:120]),)+tuple(e.args[1:])
+                        except Exception: pass
+                    raise
                 if r is None: continue
                 if r[0]=='br': prev,cur=cur,r[1]; break
                 if r[0]=='ret': return r[1]
@@ -481,6 +519,17 @@ class Interp:
         if op in ('call','tail','musttail','notail'):
             if op!='call': rest=rest.split(' ',1)[1] if rest.startswith('call') else rest
             m=re.match(r'(?:call\s+)?(?:fastcc\s+)?((?:noalias |noundef |signext |zeroext |nonnull |align \d+ |dereferenceable\(\d+\) |dereferenceable_or_null\(\d+\) )*)(.*?)\s*([@%]"[^"]*"|[@%][\w.$-]+)\((.*)\)',rest)
+            ma=re.match(r'(?:call\s+)?(.*?)\s+asm\s+(?:sideeffect\s+|alignstack\s+|inteldialect\s+)*"((?:[^"\\]|\\.)*)"',rest)
+            if ma:
+                # inline assembly (cpuid/xgetbv in cpu.cpp): environment query -> arbitrary result values of the declared type
+                rt,_=s.tp.parse(ma.group(1)); rt=resolve(rt); s.asmn=getattr(s,'asmn',0)+1
+                if isinstance(rt,StructT): v=[z3.BitVec('asm%d_%d'%(s.asmn,k),resolve(e).w) for k,e in enumerate(rt.els)]
+                elif isinstance(rt,IntT): v=z3.BitVec('asm%d'%s.asmn,rt.w)
+                else: v=None
+                s.trace.append(('asm',ma.group(2)[:40]))
+                if res: env[res]=v
+                return
+            if m is None: raise Exception('call? '+l[:200])
             fn=m.group(3)
             if fn.startswith('%'):
                 fp=env[fn]; assert isinstance(fp,Ptr) and fp.obj.startswith('@fn:'),fp; fn=fp.obj[4:]
@@ -511,6 +560,9 @@ class Interp:
         if op=='unreachable': raise Exception('unreachable')
         raise Exception('op? '+l[:100])
     def loadt(s,p,t):
+        if isinstance(t,PtrT):
+            v=s.mem.load(p,8)
+            return Ptr(None,v) if is_c(v) else v
         if isinstance(t,VecT):
             es=resolve(t.el).size(); return [s.mem.load(Ptr(p.obj,add64(p.off,k*es)),es) for k in range(t.n)]
         return s.mem.load(p,t.size())
@@ -524,7 +576,7 @@ class Interp:
         for k,h in s.intr_hooks.items():
             if fn.startswith(k): return h(s,args)
         if fn.startswith('llvm.eh.typeid.for'): return TYPEID(args[0].obj[1:] if isinstance(args[0],Ptr) and args[0].obj else 'null')
-        if fn.startswith('llvm.lifetime') or fn.startswith('llvm.prefetch') or fn.startswith('llvm.assume'): return None
+        if fn.startswith('llvm.lifetime') or fn.startswith('llvm.prefetch') or fn.startswith('llvm.assume') or fn.startswith('llvm.invariant') or fn.startswith('llvm.experimental.noalias') or fn.startswith('llvm.dbg'): return None
         if fn.startswith('llvm.memcpy') or fn.startswith('llvm.memmove'):
             d,sr,n=args[0],args[1],args[2]; assert is_c(n)
             so=s.mem.objs[sr.obj]; items=[]; k=0
@@ -536,7 +588,12 @@ class Interp:
             return None
         if fn.startswith('llvm.memset'):
             d,v,n=args[0],args[1],args[2]; assert is_c(n)
-            for k in range(n): s.mem.store(Ptr(d.obj,add64(d.off,k)),v,1)
+            k=0
+            if is_c(v) and is_c(d.off):
+                w8=(v&0xff)*0x0101010101010101
+                while k<n and (d.off+k)%8: s.mem.store(Ptr(d.obj,d.off+k),v&0xff,1); k+=1
+                while k+8<=n: s.mem.store(Ptr(d.obj,d.off+k),w8,8); k+=8
+            while k<n: s.mem.store(Ptr(d.obj,add64(d.off,k)),v,1); k+=1
             return None
         if fn.startswith('llvm.fshl') or fn.startswith('llvm.fshr'):
             a,b,c=args; w=resolve(rt).el.w if isinstance(resolve(rt),VecT) else resolve(rt).w
@@ -547,6 +604,10 @@ class Interp:
                 if c==0: return a
                 return binop('or',binop('shl',a,c,w),binop('lshr',b,w-c,w),w)
             return vecmap3(f,a,b,c)
+        if fn.startswith('llvm.x86.aesni.aesenc') or fn.startswith('llvm.x86.aesni.aesdec'):
+            f=z3.Function('aesenc' if 'aesenc' in fn else 'aesdec',z3.BitVecSort(128),z3.BitVecSort(128),z3.BitVecSort(128))
+            a,b=args; r=f(z3.Concat(bv(a[1],64),bv(a[0],64)),z3.Concat(bv(b[1],64),bv(b[0],64)))
+            return [z3.Extract(63,0,r),z3.Extract(127,64,r)]
         if fn.startswith('llvm.sqrt'):
             rm=s.rm(); a=args[0]
             return [fpop('fsqrt',rm,x) for x in a] if isinstance(a,list) else fpop('fsqrt',rm,a)
